@@ -4,7 +4,8 @@ From mathcomp Require Import complex.
 Require Import ZArith.
 Require Import MPSV.Hess.HessModel MPSV.Hess.HessModelM MPSV.Hess.HessDet MPSV.Hess.HessScale MPSV.Hess.HessApriori
                MPSV.Hess.HessErrVec MPSV.Hess.HessGauss MPSV.Hess.HessTie MPSV.Hess.HessStd
-               MPSV.Hess.HessMul3 MPSV.Hess.HessErrHead MPSV.Hess.HessModelF MPSV.Hess.HessRange.
+               MPSV.Hess.HessMul3 MPSV.Hess.HessErrHead MPSV.Hess.HessModelF MPSV.Hess.HessRange
+               MPSV.Hess.MpolyModel MPSV.Hess.MpolyList MPSV.Hess.MpolyDet.
 Require MPSV.Hess.HessB64.
 
 Set Implicit Arguments.
@@ -385,3 +386,65 @@ Example C20_fhess_range_nonvacuous :
   [/\ forall v, all (fun x : int => `|toy_scale (toy_ex v) x| <= 0) v, forall v, `|toy_ex v| <= 1
      & @fhess_code int (flops toy_model) int +%R toy_scale toy_ex 0 [:: 2; 3; 5; 7; 11; 13; 0; 17; 19] 3 1 = (0, 1)].
 Proof. split; [exact: toy_ex_scale | exact: toy_ex_range | exact: toy_range_value]. Qed.
+
+(* ---- matrix polynomial (src/libmps/monomial/monomial-matrix-poly.c) ---------------------------------------
+   Model MpolyModel.v: the two stores P (doubles, NOT initialised by _new) and mP (multiprecision), the call
+   set_coefficient_d (guard, memmove into block i of P, refresh of the FIRST block of mP from the first block of
+   P) and meval = mps_mhessenberg_shifted_determinant (mP, x, m).
+   After ANY non-empty sequence of accepted set_coefficient_d calls (any guard [bound]: as coded or fixed),
+   whatever the stores held before, what meval computes in exact arithmetic is det (P_0 - x.I), P_0 = the
+   first m x m block of P (= the last matrix stored with index 0, or what malloc left there:
+   C20_mpoly_block0), provided that block is upper Hessenberg.  The rounding side is C20_mhess_head_error_det. *)
+Theorem C20_mpoly_meval_is_det :
+  forall (R : comRingType) (deg m' : nat) (s0 s' : mstore R) (calls : seq (nat * seq R)) (x : R) (bound : nat),
+    let m := m'.+1 in
+    @wf R deg m s0 -> @mats_ok R m calls -> calls <> [::] ->
+    run_calls (set_coeff_with bound deg m) s0 calls = Some s' ->
+    upper_hessenberg (coeff_mx m (st_P s') 0) ->
+    mpoly_meval_exact m s' x = \det (coeff_mx m (st_P s') 0 - x%:M).
+Proof. move=> R deg m' s0 s' calls x bound; exact: mpoly_meval_is_det. Qed.
+Print Assumptions C20_mpoly_meval_is_det.
+
+Theorem C20_mpoly_block0 :
+  forall (A : Type) (deg m bound : nat) (s s' : mstore A) (calls : list (nat * list A)),
+    (1 <= m)%coq_nat -> @wf A deg m s -> @mats_ok A m calls ->
+    run_calls (set_coeff_with bound deg m) s calls = Some s' ->
+    List.firstn (m * m)%coq_nat (st_P s') = block0 (List.firstn (m * m)%coq_nat (st_P s)) calls.
+Proof. move=> A deg m bound s s' calls; exact: run_calls_block0. Qed.
+Print Assumptions C20_mpoly_block0.
+
+(* non-vacuity: degree 1, m = 2, garbage 9 everywhere, calls (1, [1 2; 3 4]) then (0, [5 6; 7 8]) *)
+Example C20_mpoly_nonvacuous :
+  run_calls (set_coefficient_d_coded 1 2) (MStore (nseq 8 9) (nseq 8 0)) [:: (1%nat, [:: 1; 2; 3; 4]); (0%nat, [:: 5; 6; 7; 8])]
+  = Some (MStore [:: 5; 6; 7; 8; 1; 2; 3; 4] [:: 5; 6; 7; 8; 0; 0; 0; 0] : mstore int).
+Proof. by []. Qed.
+
+(* REFUTED: "an index the guard accepts stays inside the coefficient array".  As coded the guard compares i with
+   the degree of the scalar polynomial (degree * m): m = 2, degree 1, i = 2 is accepted and the memmove writes the
+   entries 8..11 of an array of 8 (replayed through the public API under ASan by checks/C20.py:
+   heap-buffer-overflow; fixes/C20_mpoly_coefficient_index.patch). *)
+Theorem C20_mpoly_set_coeff_guard_refuted :
+  exists (deg m i : nat) (s : mstore int) (mat : seq int),
+    [/\ (1 <= m)%nat, @wf int deg m s, size mat = (m * m)%nat
+      & set_coefficient_d_coded deg m s i mat = SetOverflow].
+Proof. exact: mpoly_set_coeff_guard_refuted. Qed.
+Print Assumptions C20_mpoly_set_coeff_guard_refuted.
+
+(* with the guard of the fix (i > mpoly->degree) the memmove never leaves the array, and on the indices of the
+   matrix polynomial nothing changes *)
+Theorem C20_mpoly_fixed_guard_safe :
+  forall (A : Type) (deg m : nat) (s : mstore A) (i : nat) (mat : list A),
+    set_coefficient_d_fixed deg m s i mat <> SetOverflow /\
+    ((i <= deg)%coq_nat -> (1 <= m)%coq_nat -> set_coefficient_d_coded deg m s i mat = set_coefficient_d_fixed deg m s i mat).
+Proof. move=> A deg m s i mat; split; [exact: fixed_never_overflows | exact: coded_fixed_agree]. Qed.
+Print Assumptions C20_mpoly_fixed_guard_safe.
+
+(* REFUTED: the documented meaning "value = det (P (x))".  P (x) = [1] + [1] x at x = 1: the function's value is
+   det (P_0 - x) = 0, det (P (1)) = 2: the coefficients of degree >= 1 are never read (replayed by checks/C20.py). *)
+Theorem C20_mpoly_meval_not_matrix_polynomial_refuted :
+  exists (deg m : nat) (s0 s' : mstore int) (calls : seq (nat * seq int)) (x : int),
+    [/\ @wf int deg m s0, @mats_ok int m calls,
+        run_calls (set_coefficient_d_coded deg m) s0 calls = Some s'
+      & mpoly_meval_exact m s' x <> \det (\sum_(k < deg.+1) x ^+ k *: coeff_mx m (st_P s') k)].
+Proof. exact: mpoly_meval_not_matrix_polynomial_refuted. Qed.
+Print Assumptions C20_mpoly_meval_not_matrix_polynomial_refuted.
